@@ -75,6 +75,7 @@ class Ctx:
         self._grp = {}                 # union-find parent: var key -> var key
         self._cons = {}                # root var key -> list of constraints
         self._novars = []              # constraints without free variables
+        self._gsolver = {}             # root var key -> [solver, number of group constraints already added]
 
     # -- solver -------------------------------------------------------------------------------
     def _find(self, v):
@@ -102,6 +103,8 @@ class Ctx:
         for r in it:
             self._grp[r] = r0
             lst.extend(self._cons.pop(r, []))
+            self._gsolver.pop(r, None)
+            self._gsolver.pop(r0, None)
         for v in vs:
             if v not in self._grp:
                 self._grp[v] = r0
@@ -125,18 +128,37 @@ class Ctx:
         if extra and SLICING:
             # constraint independence: the path condition is satisfiable as a whole (invariant), so only the
             # constraints connected to the query through shared variables can influence the answer
-            rel = self.relevant(extra)
-            if len(rel) < len(self.pc):
-                s2 = z3.Solver()
-                s2.set("timeout", QUERY_TIMEOUT_MS)
-                s2.add(rel)
+            roots = set()
+            for e in extra:
+                for v in free_vars(e):
+                    if v in self._grp:
+                        roots.add(self._find(v))
+            nrel = sum(len(self._cons.get(r, ())) for r in roots) + len(self._novars)
+            if nrel < len(self.pc):
+                if len(roots) == 1 and not self._novars:
+                    # incremental solver per independence group
+                    (r0,) = roots
+                    lst = self._cons.get(r0, [])
+                    gs = self._gsolver.get(r0)
+                    if gs is None:
+                        s2 = z3.Solver()
+                        s2.set("timeout", QUERY_TIMEOUT_MS)
+                        gs = self._gsolver[r0] = [s2, 0]
+                    s2 = gs[0]
+                    if gs[1] < len(lst):
+                        s2.add(lst[gs[1]:])
+                        gs[1] = len(lst)
+                else:
+                    s2 = z3.Solver()
+                    s2.set("timeout", QUERY_TIMEOUT_MS)
+                    s2.add(self.relevant(extra))
                 r = s2.check(*extra)
                 self._last = s2
                 dt = time.time() - t
                 self.solver_s += dt
                 if DEBUG_SLOW and dt > DEBUG_SLOW:
                     import sys
-                    sys.stderr.write("SLOW(sliced %d/%d) %.1fs %s extra=%s\n" % (len(rel), len(self.pc), dt, r, [str(e)[:300] for e in extra]))
+                    sys.stderr.write("SLOW(sliced %d/%d) %.1fs %s extra=%s\n" % (nrel, len(self.pc), dt, r, [str(e)[:300] for e in extra]))
                 return r
         self._last = self.solver
         r = self.solver.check(*extra)
@@ -777,6 +799,15 @@ def explore(fn, max_paths=20000, timeout_s=None, want_samples=True, expected=())
                                 st["violations"].append({"label": label, "values": sample, "kind": "obligation", "notes": list(ctx.notes)})
                             continue
                         r = ctx.check(z3.Not(ob))
+                        if r == z3.unknown and z3.is_and(ob):
+                            # discharge a large conjunction conjunct by conjunct (each is sliced separately)
+                            r = z3.unsat
+                            for cj in ob.children():
+                                rj = ctx.check(z3.Not(cj))
+                                if rj != z3.unsat:
+                                    r = rj
+                                    ob = cj
+                                    break
                         if r == z3.unsat:
                             st["discharged"] += 1
                         elif r == z3.sat:
